@@ -31,6 +31,24 @@ theorem ndindex_rowmajor (ds idx : List Nat) :
 example : InRange [2, 3] [1, 2] ∧ ravel [2, 3] [1, 2] = 5 ∧ ndindex [2, 2] = [[0, 0], [0, 1], [1, 0], [1, 1]] :=
   ⟨by simp [InRange], by decide, by decide⟩
 
+/-- Which variables are expanded: exactly those with an array level anywhere in the nested name
+    (`set(_modelica_shape) != {(None,)}`), whatever the sizes — a scalar inside a component array
+    of size one (`Pump one[1]`, shape `((1,), (None,))`) is expanded and gets the single name
+    `one[1].y`; only names all of whose levels are scalar are kept. -/
+theorem expanded_iff_array_level (ms : MShape) (hne : ms ≠ []) :
+    (needsExpand ms = true ↔ ∃ l ∈ ms, l ≠ none) ∧
+    (∀ n : Nat, needsExpand (some [n] :: ms) = true ∧ needsExpand (ms ++ [some [n]]) = true) := by
+  constructor
+  · cases ms with
+    | nil => exact absurd rfl hne
+    | cons l ms =>
+      simp only [needsExpand, List.isEmpty_cons, Bool.false_or, List.any_eq_true, Option.isSome_iff_ne_none]
+  · intro n
+    cases ms <;> simp [needsExpand]
+
+example : needsExpand [some [1], none] = true ∧ needsExpand [none, none] = false ∧
+    (Decl.ofName ['o', '.', 'y'] [some [1], none]).names = [['o', '[', '1', ']', '.', 'y']] := by decide
+
 /-! ## The substitution value -/
 
 /-- The arithmetic identity behind `reshape(vertcat(elements), reversed(shape)).T` under
